@@ -370,9 +370,12 @@ def report(a, seed, mine, results, t0):
     n_dis = sum(1 for v in counted.values() if v['discharged'] == v['n'])
     wall = time.time() - t0
     ev = {
-        'property_id': prop, 'tier': a.tier, 'seed': seed, 'level': 'proof',
+        'property_id': prop, 'tier': a.tier, 'seed': seed, 'level': LEVEL.get(prop, 'proof'),
         'coverage': {
             'obligations': n_ob, 'discharged': n_dis,
+            'explanation': 'contract-based deductive verification: %d named obligations generated from the current '
+                           'source and discharged by z3 (see obligation_table); what is not decided is stated in '
+                           'MANIFEST level_note and DESIGN.md section 6' % n_ob,
             'checker_cmd': './check %s --tier %s' % (prop, a.tier),
             'trusted_base': TRUSTED,
             'path_level_vcs': sum(v['n'] for v in ob.values()),
@@ -439,6 +442,7 @@ def do_replay(a, allc):
     return 1 if okc else 0
 
 
+LEVEL = {'C09': 'other'}
 TRUSTED = [
     'pyvc symbolic executor (encoding of Python semantics, DESIGN.md 2.2)',
     'z3 5.1.0', 'CPython ast module',
